@@ -17,7 +17,8 @@ from .. import core, env, gen, kdriver, ohist, specs
 from .. import tdfref as R
 
 PROP = "C08"
-RULE = ("states = (aw, ctx, ctx_w, set of live kinds, handle open) reached by BFS to the fixpoint; in every state all "
+RULE = ("states = (aw, ctx, ctx_w, set of live kinds, how the last context was left, a call failed inside the context, "
+        "implementation mode flags) reached by BFS to the fixpoint; in every state all "
         "4 mode ops + 8 mutators + 26 readers are applied; oracle on file bytes (sha256) + exception + open "
         "descriptors per transition; non-trivial = transition taken in a state other than the initial one")
 ASSUMPTIONS = [
@@ -69,8 +70,14 @@ class Impl:
 
 
 class ModeMachine(ohist.Machine):
-    def __init__(self):
+    light = False
+
+    def __init__(self, reader_slice=None):
         self.dirs = []
+        # readers checked by this instance (all shards explore the same mode/mutator skeleton)
+        self.readers = list(READERS) if reader_slice is None else [r for i, r in enumerate(READERS) if i % reader_slice[1] == reader_slice[0]]
+        if "has_events" not in self.readers:
+            self.readers.append("has_events")  # one reader is needed to reach the 'maybe' zone
 
     def V(self, clause, detail, extra=""):
         return core.Violation(clause, f"{PROP}:{clause}{(':' + extra) if extra else ''}", None, detail)
@@ -82,7 +89,7 @@ class ModeMachine(ohist.Machine):
             self.count = getattr(self, "count", 0) + 1
             d = os.path.join(self.dirs[0], f"r{self.count}")
             os.mkdir(d)
-            return Impl(d), {"aw": False, "ctx": False, "ctx_w": False, "live": (R.T_EVENTS,)}
+            return Impl(d), {"aw": False, "ctx": False, "ctx_w": False, "live": (R.T_EVENTS,), "last_exit": None, "failed_in_ctx": False}
         return [("fresh", make)]
 
     def ops(self, model):
@@ -92,7 +99,7 @@ class ModeMachine(ohist.Machine):
             out += ["exit", "exit_exc"]
         else:
             out.append("enter")
-        out += list(MUTATORS) + list(READERS)
+        out += list(MUTATORS) + list(self.readers)
         return out
 
     def describe(self, op):
@@ -182,7 +189,7 @@ class ModeMachine(ohist.Machine):
     def step(self, impl, model, op):
         model = dict(model)
         tdf = impl.tdf
-        before = impl.sha()
+        before = None if self.light else impl.sha()
         where = f"mode(aw={model['aw']}, ctx={model['ctx']}, ctx_w={model['ctx_w']}) content={[R.NAMES[t] for t in model['live']]}"
         err = None
         kind = "mode" if op in MODE_OPS else ("mutator" if op in MUTATORS else "reader")
@@ -205,6 +212,8 @@ class ModeMachine(ohist.Machine):
                     tdf.__exit__(ValueError, e, None)
                 impl.entered = False
                 model["ctx"], model["ctx_w"], model["aw"] = False, False, False
+                model["last_exit"] = "exception" if op == "exit_exc" else "normal"
+                model["failed_in_ctx"] = False
             elif kind == "mutator":
                 fn = self._mutate(impl, op, model["live"])
                 if fn is None:
@@ -217,6 +226,17 @@ class ModeMachine(ohist.Machine):
             raise
         except Exception as e:  # noqa: BLE001
             err = e
+        if err is not None and model["ctx"]:
+            model["failed_in_ctx"] = True  # a call raised inside the open context (history feature kept apart)
+        if self.light:  # replaying a prefix: same model updates, no oracle work
+            if kind == "reader" and not model["ctx"] and model["aw"] is True:
+                model["aw"] = "maybe"
+            if kind == "mutator" and not skipped:
+                may = model["ctx"] and model["ctx_w"] in (True, "maybe")
+                if not may and not model["ctx"] and model["aw"] is True:
+                    model["aw"] = "maybe"
+                model["live"] = impl.live()
+            return impl, model
         after = impl.sha()
         changed = before != after
         if kind == "mode":
@@ -265,15 +285,23 @@ class ModeMachine(ohist.Machine):
         pass
 
     def canon(self, impl, model):
-        return (model["aw"], model["ctx"], model["ctx_w"], model["live"])
+        # model fields + how the last context was left + whether something raised inside the open
+        # context + the implementation's own mode flags if it exposes them under these names (only
+        # used to keep states apart, never judged)
+        t = impl.tdf
+        return (model["aw"], model["ctx"], model["ctx_w"], model["live"], model["last_exit"], model["failed_in_ctx"],
+                getattr(t, "_mode", None), getattr(t, "_inside_context", None))
 
     def nontrivial(self, model):
         return True
 
 
-def _shard(_):
+NSLICE = 6
+
+
+def _shard(k):
     acc = core.Acc()
-    m = ModeMachine()
+    m = ModeMachine((k, NSLICE))
     # replay-based exploration; close handles of abandoned objects as we go
     opened = []
 
@@ -296,12 +324,15 @@ def _shard(_):
     ohist.explore(m, acc, depth=None, tag="", copy_states=False, max_states=5000)
     for o in opened:
         o.close()
-    acc.sample({"mode ops": list(MODE_OPS), "mutators": list(MUTATORS), "readers": list(READERS)}, 4)
+    acc.sample({"mode ops": list(MODE_OPS), "mutators": list(MUTATORS), "readers checked by this shard": m.readers}, 4)
+    if k:  # the mode/mutator skeleton is explored by every shard; count its states once
+        acc.n["states"] = 0
+        acc.n["nontrivial"] = 0
     return acc
 
 
 def run(tier):
-    return core.pmap(__name__, "_shard", [0])
+    return core.pmap(__name__, "_shard", list(range(NSLICE)))
 
 
 def replay(w):
